@@ -119,6 +119,9 @@ def run(chk):
         add("near-radius", xs, 2, "shade-over", 1)
         add("near-radius", xs, 2, "shade-over", 2)
         add("near-radius", xs, 2, "shade-over", 1, qs=["CADD", "AC", "ACD"])
+        # queries LONGER than every reference sequence (and shorter ones): each query is searched whole
+        add("long-queries", [x[:3] for x in xs], 2, "mix", 2, qs=["CADDAC", "CAAAKD", "ACDACD", "A"])
+        add("long-queries", [x[:3] for x in xs], 1, "lev/2", None, qs=[xs[0][:3] + "D", xs[-1][:3] + "AC"])
     for _ in range(60 if not thorough else 600):
         xs = gen.sub_collection(rng, pool, rng.randint(2, 12))
         add("E(ACD)", xs, rng.randint(1, 3), rng.choice(list(dists)), rng.choice(mcds))
@@ -174,8 +177,9 @@ def run(chk):
     nbig = 47011 if not thorough else 60001
     bxs, bpairs = gen.planted(rng, nbig)
     half = lambda a_, b_: _levd(a_, b_) / 2 + abs(len(a_) - len(b_))  # noqa: E731
-    for name, fn in (("symdel", lambda: nn.symdel(bxs, max_edits=1, custom_distance=half, max_custom_distance=0.5)),
-                     ("nearest_neighbor", lambda: nn.nearest_neighbor(bxs, max_edits=1, custom_distance=half, max_custom_distance=0.5))):
+    for name, fn in ((("symdel", lambda: nn.symdel(bxs, max_edits=1, custom_distance=half, max_custom_distance=0.5)),
+                      ("nearest_neighbor", lambda: nn.nearest_neighbor(bxs, max_edits=1, custom_distance=half, max_custom_distance=0.5)))
+                     if not chk.skip_large("the 47 011-sequence custom-distance collection") else ()):
         rr = core.call_real(lambda: [(int(a_), int(b_), float(d_)) for a_, b_, d_ in fn()])
         chk.case(nontrivial_key=("large-custom", name))
         chk.count("large-collection")
